@@ -301,6 +301,13 @@ func (m *machine) exec(s M) (ret any) {
 		z.SetBitsExp(w, num(s, "e"))
 	case "Parse", "SetString", "UnmarshalText", "ParseDecimal", "UnmarshalJSON", "Scan":
 		ret = m.parse(op, s)
+	case "BitsExp":
+		w, e := m.reg(s, "x").BitsExp()
+		ws := []string{}
+		for _, v := range w {
+			ws = append(ws, strconv.FormatUint(uint64(v), 10))
+		}
+		ret = M{"words": ws, "exp": e}
 	case "Cmp":
 		ret = M{"v": m.reg(s, "x").Cmp(m.reg(s, "y"))}
 	case "Preds":
